@@ -149,76 +149,4 @@ __CPROVER_ensures (node->type == YAEP_ANODE ? *cost == -node->val.anode.cost - 1
 ;
 void h_prune_base (void) { node_t *n; int *c; HAVOC (parse_free); n = prune_to_minimal (n, c); if (n->type == YAEP_ANODE) VACUITY_CANARY_N ("revisited node"); else VACUITY_CANARY_N ("leaf"); }
 
-/* ---- P.step.base (DFCC): the two non-recursive cases of prune_to_minimal, full domain: a leaf costs 0; an abstract node
-   that was already processed (shared between alternatives) reports its recorded total and is left alone ---- */
-node_t *prune_base_c (node_t *node, int *cost)
-__CPROVER_requires (__CPROVER_is_fresh (node, sizeof (*node)) && __CPROVER_is_fresh (cost, sizeof (int)) && parse_free == NULL)
-__CPROVER_requires (node->type == YAEP_NIL || node->type == YAEP_ERROR || node->type == YAEP_TERM || (node->type == YAEP_ANODE && node->val.anode.cost < 0 && node->val.anode.cost > INT_MIN))   /* A-COST: totals stay below INT_MAX */
-__CPROVER_assigns (*cost)
-__CPROVER_ensures (__CPROVER_return_value == node)
-__CPROVER_ensures (node->type == YAEP_ANODE ? *cost == -node->val.anode.cost - 1 : *cost == 0)
-;
-void h_prune_base (void) { node_t *n; int *c; HAVOC (parse_free); n = prune_to_minimal (n, c); if (n->type == YAEP_ANODE) VACUITY_CANARY_N ("revisited node"); else VACUITY_CANARY_N ("leaf"); }
-
-/* ---- T.free: yaep_free_tree on small DAGs (bounded plain harness, faithful mode).  Every block reachable from the root is handed to
-   parse_free exactly once, termcb is called exactly once per TERM node, nothing else is released. ---- */
-#ifndef VERIF_DFCC
-enum { ID_T1, ID_T2, ID_N, ID_A, ID_A2, ID_R, ID_ALT1, ID_ALT2, ID_NAME_A, ID_NAME_R, NIDS };
-static void *blk[NIDS]; static int freed[NIDS], used[NIDS], termc[NIDS], stray;
-static void my_free (void *p) { int i, hit = 0; for (i = 0; i < NIDS; i++) if (blk[i] == p) { freed[i]++; hit = 1; } if (!hit) stray++; }
-static void my_termcb (struct yaep_term *t) { int i; for (i = 0; i <= ID_T2; i++) if (blk[i] != NULL && &((node_t *) blk[i])->val.term == t) termc[i]++; }
-static node_t *mk (int id, enum yaep_tree_node_type ty) { node_t *n = malloc (sizeof (node_t) + 4 * sizeof (node_t *)); __CPROVER_assume (n != NULL); n->type = ty; blk[id] = n; return n; }
-static node_t *pick (node_t *t1, node_t *t2, node_t *nil, node_t *extra, int *u)
-{ int c; __CPROVER_assume (c >= 0 && c <= (extra != NULL ? 3 : 2));
-  if (c == 0) { u[ID_T1] = 1; return t1; } if (c == 1) { u[ID_T2] = 1; return t2; } if (c == 2) { u[ID_N] = 1; return nil; } return extra; }
-static void kids (node_t *a, int n, node_t *t1, node_t *t2, node_t *nil, node_t *first, int *u)
-{ node_t **k = (node_t **) ((char *) a + sizeof (node_t)); int i; a->val.anode.children = k;
-  for (i = 0; i < 3; i++) k[i] = i < n ? (i == 0 && first != NULL ? first : pick (t1, t2, nil, NULL, u)) : NULL; k[3] = NULL; }
-#ifndef NAME_MIN
-#define NAME_MIN 1
-#endif
-static char *mkname (int id) { size_t l; char *s; __CPROVER_assume (l >= NAME_MIN && l <= 2); s = malloc (l + 1); __CPROVER_assume (s != NULL);
-  if (l >= 1) __CPROVER_assume (s[0] != '\0'); s[l] = '\0'; blk[id] = s; return s; }
-/* shape 1: one abstract node with up to 3 children drawn from {T1, T2, NIL} with any sharing (a shared child before a fresh one
-   exercises the compaction of the children array) */
-void h_free_tree_flat (void)
-{
-  node_t *t1 = mk (ID_T1, YAEP_TERM), *t2 = mk (ID_T2, YAEP_TERM), *nil = mk (ID_N, YAEP_NIL), *r = mk (ID_R, YAEP_ANODE); int nr, i;
-  char *name_r = mkname (ID_NAME_R);
-  __CPROVER_assume (nr >= 0 && nr <= 3);
-  r->val.anode.name = name_r; kids (r, nr, t1, t2, nil, NULL, used); used[ID_R] = 1; used[ID_NAME_R] = 1;
-  yaep_free_tree (r, my_free, my_termcb);
-  HAVOC (i); __CPROVER_assume (i >= 0 && i < NIDS);
-  __CPROVER_assert (freed[i] == used[i], "every block reachable from the root is passed to parse_free exactly once, no other block is");
-  __CPROVER_assert (stray == 0, "only blocks of the tree are passed to parse_free");
-  __CPROVER_assert (i > ID_T2 || termc[i] == used[i], "termcb is called exactly once per TERM node of the tree");
-  VACUITY_CANARY ();
-}
-/* shape 2: ALT root over two abstract nodes of the same rule (one shared name block), each with one child from {T1, T2, NIL};
-   or an abstract-node root whose first child is an abstract node */
-#define CHECK_FREED() do { int i_; HAVOC (i_); __CPROVER_assume (i_ >= 0 && i_ < NIDS); \
-  __CPROVER_assert (freed[i_] == used[i_], "every block reachable from the root is passed to parse_free exactly once, no other block is"); \
-  __CPROVER_assert (stray == 0, "only blocks of the tree are passed to parse_free"); \
-  __CPROVER_assert (i_ > ID_T2 || termc[i_] == used[i_], "termcb is called exactly once per TERM node of the tree"); } while (0)
-void h_free_tree_alt (void)
-{
-  node_t *t1 = mk (ID_T1, YAEP_TERM), *t2 = mk (ID_T2, YAEP_TERM), *nil = mk (ID_N, YAEP_NIL), *a = mk (ID_A, YAEP_ANODE), *a2 = mk (ID_A2, YAEP_ANODE);
-  node_t *alt1 = mk (ID_ALT1, YAEP_ALT), *alt2 = mk (ID_ALT2, YAEP_ALT); char *name_a = mkname (ID_NAME_A);
-  a->val.anode.name = name_a; a2->val.anode.name = name_a;      /* one name block per rule, shared by all its nodes */
-  kids (a, 1, t1, t2, nil, NULL, used); kids (a2, 1, t1, t2, nil, NULL, used);
-  used[ID_A] = used[ID_A2] = used[ID_NAME_A] = used[ID_ALT1] = used[ID_ALT2] = 1;
-  alt1->val.alt.node = a; alt1->val.alt.next = alt2; alt2->val.alt.node = a2; alt2->val.alt.next = NULL;
-  yaep_free_tree (alt1, my_free, my_termcb);
-  CHECK_FREED (); VACUITY_CANARY ();
-}
-void h_free_tree_nest (void)
-{
-  node_t *t1 = mk (ID_T1, YAEP_TERM), *t2 = mk (ID_T2, YAEP_TERM), *nil = mk (ID_N, YAEP_NIL), *a = mk (ID_A, YAEP_ANODE), *r = mk (ID_R, YAEP_ANODE);
-  char *name_a = mkname (ID_NAME_A), *name_r = mkname (ID_NAME_R);
-  a->val.anode.name = name_a; r->val.anode.name = name_r;
-  kids (a, 1, t1, t2, nil, NULL, used); kids (r, 2, t1, t2, nil, a, used);
-  used[ID_A] = used[ID_NAME_A] = used[ID_R] = used[ID_NAME_R] = 1;
-  yaep_free_tree (r, my_free, my_termcb);
-  CHECK_FREED (); VACUITY_CANARY ();
-}
-#endif
+/* (T.free is decided by the native exhaustive stand-in native/free_tree_enum.c; the CBMC harnesses did not finish) */
